@@ -261,8 +261,7 @@ def run_A4(ctx, case):
     if bad: q.failed.append(('routine clobbers registers %s beyond rax,rbx,rcx,rdx,rbp,rsi (which the loop-store template saves)' % bad, {}))
     ok = isinstance(m.gpr[7], Ptr) and m.gpr[7].obj == 'state' and m.gpr[7].off == 0 and isinstance(m.gpr[4], Ptr) and m.gpr[4].off == 40; q.n += 1; q.unsat += ok; q.sat += (not ok)
     if not ok: q.failed.append(('rdi / rsp not preserved', {}))
-    kb = [mem.load(Ptr('key', 8 * i), 8) for i in range(2)]; ok = all((not is_c(x)) and x.eq(y) for x, y in zip(kb, ky)); q.n += 1; q.unsat += ok; q.sat += (not ok)
-    if not ok: q.failed.append(('key block modified', {}))
+    for i in range(2): q.prove_eq([], mem.load(Ptr('key', 8 * i), 8), ky[i], 'soft_aes_%s: key block unchanged (word %d)' % (case, i), 64)
     for (kd, obj, off, nb) in m.accesses:
         if obj not in ('state', 'key', 'lut', 'xcode', 'stack'): q.failed.append(('access to %s' % obj, {})); q.sat += 1
     extent_checks(q, [], mem, 'soft_aes_%s' % case)
